@@ -167,10 +167,17 @@ func genStruct(t *rapid.T) structCase {
 	}
 	c := structCase{FQ: rapid.Bool().Draw(t, "fq")}
 	canonical := rapid.Bool().Draw(t, "canonical")
+	// Raw octets >= 0x80 are NOT the library's presentation form (it writes \DDD); they are only
+	// given to the structural helpers, never to CanonicalName (which maps through Unicode and is
+	// documented for presentation-form names) – see DESIGN.md §7.4.
+	rawHigh := false
 	for _, l := range n {
-		if canonical {
+		switch {
+		case canonical:
 			c.Spelled = append(c.Spelled, wm.EscLabel(l))
-		} else {
+		case rawHigh:
+			c.Spelled = append(c.Spelled, gen.SpellLabelRaw(t, l))
+		default:
 			c.Spelled = append(c.Spelled, gen.SpellLabel(t, l))
 		}
 	}
